@@ -226,13 +226,13 @@ impl<'src, 'run> Evaluator<'src, 'run> {
       Expression::StringLiteral { string_literal } => Ok(string_literal.cooked.clone()),
       Expression::Variable { name, .. } => {
         let variable = name.lexeme();
-        if let Some(value) = self.scope.value(variable) {
-          Ok(value.to_owned())
-        } else if let Some(assignment) = self
+        if let Some(assignment) = self
           .assignments
           .and_then(|assignments| assignments.get(variable))
         {
           Ok(self.evaluate_assignment(assignment)?.to_owned())
+        } else if let Some(value) = self.scope.value(variable) {
+          Ok(value.to_owned())
         } else {
           Err(Error::Internal {
             message: format!("attempted to evaluate undefined variable `{variable}`"),
